@@ -8,7 +8,7 @@ from harness.engine import ImplError
 from harness.plans import plan
 
 ID = "C14"
-CORES = ["dist_sample", "gf_simulate", "gf_call", "sample_shape", "adev_site"]
+CORES = ["dist_sample", "gf_simulate", "gf_call", "sample_shape", "adev_site", "site_after_ops"]
 WRAPS = ["jit", "scan", "while", "fori", "cond", "switch", "grad", "value_and_grad", "vmap", "jit2", "checkpoint", "custom_jvp", "map", "modular_vmap"]
 SEEDS = ["none", "outer", "inner"]
 
@@ -32,6 +32,8 @@ def core_fn(core):
         return lambda x: jnp.sum(normal.sample(x, 1.0, sample_shape=(2,)))
     if core == "adev_site":
         return lambda x: normal_reparam(x, 1.0)
+    if core == "site_after_ops":  # parameterised deterministic equations (pow, reductions, casts) precede the site
+        return lambda x: normal.sample(jnp.sum(jnp.stack([x, x]) ** 2).astype(jnp.float32) + 1.0, 1.0) * 1.0
     raise ValueError(core)
 
 
